@@ -402,7 +402,7 @@ def gen_centre(rng, k):
 
 
 def gen_tilt(rng, k):
-    fam = [[0., 0., 0.], [90., 0., 0.], [0., 90., 0.], [0., 0., 90.], [0., 45., 0.], [180., -90., 270.], [0., 0., 1e-3], [30., 0., 0.], [10., 20., 30.], [-120., 75., 15.]]
+    fam = [[0., 0., 0.], [30., -30., 0.], [90., 0., 0.], [45., 45., -90.], [0., 90., 0.], [0., 0., 90.], [0., 45., 0.], [180., -90., 270.], [0., 0., 1e-3], [30., 0., 0.], [10., 20., 30.], [-120., 75., 15.]]
     if k % 3 == 0:
         return list(fam[(k // 3) % len(fam)])
     return r3(rng, -180, 180)
@@ -729,7 +729,7 @@ def self_check(ctx, g):
 # ---------------------------------------------------------------- entry points
 def run(ctx):
     ctx.rule = ('point pairs at scales 1e-3..1e3 (random, axis aligned, close, coincident); 1..5 x 1..5 all-pairs; luminous rays for limits 0..90 deg '
-                '(family 0, 1e-3, 1, 10, 30, 45, 60, 75, 89.9, 90 and uniform), tilts from a boundary family (zero, single axis, multiples of 90) and '
+                '(family 0, 1e-3, 1, 10, 30, 45, 60, 75, 89.9, 90 and uniform), tilts from a boundary family (zero, components cancelling to 0, single axis, multiples of 90) and '
                 'uniform in [-180, 180]^3, RNG seeds from the run seed; lattices with counts 1..8, sizes 1e-2..1e2, centres with pairwise distinct '
                 'coordinates (family incl. (1, 20, 300)); non-trivial = every clause of the oracle evaluated; distinct by (oracle, input)')
     ctx.trusted += ['tracer/shim.py + tracer/recipes/c14.py incl. its three local extensions (symbolic torch.rand, recorded NaN guard, recorded path '
